@@ -14,6 +14,9 @@ Cases (JSON):
   COL  = [name, type, nullable] | [name, type, nullable, ATTRS]   ATTRS = {"default": vid (non-null), "aliases": [names], "other": [0..9]}
          (round 4: attributes of a FlatColumn that validation must not read; "other" = description, length, precision, scale, null_count,
           lowest_value, highest_value, origin, disposition, element_type); MUT also has ["setattrs", i, ATTRS]
+  {"kind": "twin", "init": as for hist (rows == []), "share_schema": bool, "entries": [[0|1, REC], ...]}   (round 7: TWO frames made from ONE
+         creation argument - the same empty rows collection object / the same list of dictionaries; entries addressed to frame 0 or 1)
+  init may carry "rows_as": "list" | "tuple" | "deque" | "none" (round 7: how an EMPTY rows collection is passed; "none" = no rows argument)
   type = an OrsoTypes member name | "" (type argument omitted) | "0" (the integer 0 a restored untyped column carries)
   vid  = index into POOL (vid 0 is None).  Column names / keys come from NAMES.
 Observations: see observe()."""
@@ -40,7 +43,8 @@ LEVEL_TEXT = ("Machine-checked Coq theorems over an executable model of Relation
               "every validation and every append is proved to be decided by the object's columns as they are at the time of the call, "
               "independently of all earlier uses. Columns carry further attributes (round 4: a declared default, aliases, descriptive "
               "attributes); the model reads only name / type / nullable, and a null in a non-nullable column is proved to be rejected and named "
-              "whatever else the column declares. The type->class table "
+              "whatever else the column declares. Round 7: two frames made from one (empty) rows collection are proved to be separate values - each ends as if "
+              "only its own entries had been appended, whatever the interleaving - and the real frames are compared with that after every append. The type->class table "
               "and the issubclass matrix the model uses are regenerated from orso.types / the live classes on every run and pinned by theorems. "
               "The model is tied to schema.py / dataframe.py by running the real code on the complete type x value decision table and on random "
               "schemas x records x append histories and evaluating the model on the same inputs inside Coq; a literal property oracle on the "
@@ -54,8 +58,8 @@ LEVEL_NOTE = ("Trusted: Coq kernel + vm_compute; the hand-written model (values 
               "as raising and covered by the atomicity / acceptance theorems only: NULL-typed columns (TypeError), tuple/scalar entries.")
 DESIGN_REF = "DESIGN.md section 8, C05"
 COQ_IMPORTS = "From Orso Require Import Gen.C05_Types Model.C05."
-COQ_CHECKS = {"validate": "c05_validate_check2", "hist": "c05_hist_check2", "session": "c05_session_check2"}
-COQ_SHOW = {"validate": "c05_validate_show2", "hist": "c05_hist_show2", "session": "c05_session_show2"}
+COQ_CHECKS = {"validate": "c05_validate_check2", "hist": "c05_hist_check2", "session": "c05_session_check2", "twin": "c05_twin_check"}
+COQ_SHOW = {"validate": "c05_validate_show2", "hist": "c05_hist_show2", "session": "c05_session_show2", "twin": "c05_twin_show"}
 RULE = ("validate stream: the complete decision table (every OrsoTypes member and both untyped forms x nullable x one value of every class in "
         "the pool, incl. subclass pairs) on a one-column schema, then random schemas of 1..6 columns (typed/untyped/NULL, nullable or not, "
         "occasionally duplicate names) x records with every column independently missing/null/right/right-by-subclass/wrong plus 0..2 excess keys, "
@@ -68,8 +72,13 @@ RULE = ("validate stream: the complete decision table (every OrsoTypes member an
         "round 4: 35% of random columns (and columns added in sessions) carry a default / aliases / descriptive attributes, a deterministic attribute "
         "matrix (4 types x nullable x 14 attribute combinations x 6 record states, validated and appended) and zero-column schemas are enumerated in "
         "both tiers, and the value pool has subclass instances (int/str/float/list/bytes/date subclasses, IntEnum), tz-aware datetime/time, "
-        "Decimal(1)/1.0/1/-0.0/inf, 2**53+1, ndarray, datetime64; non-trivial = at least one column check or one append happened; distinct by canonical JSON")
+        "Decimal(1)/1.0/1/-0.0/inf, 2**53+1, ndarray, datetime64; round 7: twin stream - two frames made from ONE empty rows collection (list / tuple / deque / "
+        "no argument) or one list of dictionaries, appended to in an interleaving, both frames and the caller's collection observed after every append "
+        "(deterministic matrix + 150 random); wide matrix - schemas of 15..1025 columns (widths around 16, 32, 64, 100, 128, 256, 512, 1024) with all / a third / "
+        "every other column offending the same rule, or as many excess keys, validated and appended; non-trivial = at least one column check or one append happened; distinct by canonical JSON")
 TRUSTED = [
+    "round 7: that an error's MESSAGE mentions every column it names is judged by the Python oracle only; the kind of empty collection passed as rows "
+    "(list / tuple / deque / none) and whether twin frames share one schema object are not part of the Coq term (the model's init holds the rows as a value)",
     "round 6: every exception object caught in a case is kept and its .errors / .columns / message read a second time after all later operations "
     "of the case and four further unrelated validations; both readings are compared with the same model output (streams *_check2)",
     "C05 model (coq/Model/C05.v): values are None | (exact class id, identity, serialisable flag); isinstance = regenerated issubclass matrix on type(v)",
@@ -77,6 +86,8 @@ TRUSTED = [
     "the harness reads DataValidationError.errors under the three literal category strings of schema.py and ExcessColumnsInDataError.columns as a set",
 ]
 ASSUMPTIONS = [
+    "twin frames (C05_twin_frames_independent) are tied to the code for frames created from an EMPTY rows collection or from dictionaries (init_fresh); a "
+    "NON-empty rows list is adopted by the frame as its store and shared by frames made from it (candidate finding F-C05-3 in notes/C05.md) - not generated",
     "sessions: after an in-place change of a frame's schema object the row CONTENTS of later appends through that (stale) frame are judged by the "
     "model only (field list taken when the frame was made); the oracle judges their validation outcome, atomicity and 'one row added'",
     "records are str-keyed mappings with distinct keys; values come from a pool with one or more values of every class in the regenerated class table",
@@ -87,7 +98,9 @@ ASSUMPTIONS = [
 # --------------------------------------------------------------------------------------
 # name, class and value pools
 NAMES = ["c0", "c1", "c2", "c3", "c4", "c5", "c6", "c7", "x0", "x1", "x2", "x3"]
-KEY_ID = {n: i for i, n in enumerate(NAMES)}
+# round 7: names for WIDE schemas (appended to the key numbering, so earlier key ids are unchanged; the random generators keep drawing from NAMES)
+WIDE_NAMES = ["w%04d" % i for i in range(2100)]
+KEY_ID = {n: i for i, n in enumerate(NAMES + WIDE_NAMES)}
 
 # the property's reading of "its column type's Python class" - deliberately NOT read from orso (the oracle must not
 # follow an edited table); the same pairs are pinned by theorem C05_type_class_table in coq/Props/C05.v
@@ -545,15 +558,20 @@ def _canon(res):
     e = res[1]
     if isinstance(e, ExcessColumnsInDataError):
         cols = e.columns
-        return {"v": "excess", "columns": sorted(str(c) for c in cols), "n": len(cols)}
+        msg = str(e)
+        return {"v": "excess", "columns": sorted(str(c) for c in cols), "n": len(cols),
+                "msg_unnamed": sorted(str(c) for c in cols if str(c) not in msg)[:3]}
     if isinstance(e, DataValidationError):
         errs = e.errors
         wrong = []
         for t in errs.get(WRONG_KEY, []):
             ty = t[2]
             wrong.append([t[0], _cell(t[1]), getattr(ty, "name", repr(ty))])
+        msg = str(e)
+        named = list(errs.get(MISSING_KEY, [])) + list(errs.get(NOTNULL_KEY, [])) + [w[0] for w in wrong]
         return {"v": "errors", "missing": list(errs.get(MISSING_KEY, [])), "notnull": list(errs.get(NOTNULL_KEY, [])),
-                "wrong": wrong, "other": sorted(str(k) for k in errs if k not in (MISSING_KEY, NOTNULL_KEY, WRONG_KEY))}
+                "wrong": wrong, "other": sorted(str(k) for k in errs if k not in (MISSING_KEY, NOTNULL_KEY, WRONG_KEY)),
+                "msg_unnamed": [str(n) for n in named if "`%s`" % n not in msg][:3]}
     return {"v": "raise", "exc": type(e).__name__}
 
 
@@ -620,15 +638,10 @@ def observe(case):
         return out
     if case["kind"] == "session":
         return _observe_session(case)
+    if case["kind"] == "twin":
+        return _observe_twin(case)
     init = case["init"]
-    if init["how"] == "schema":
-        df = DataFrame(rows=[tuple(val(v) for v in r) for r in init["rows"]], schema=_mk_schema(init["schema"]))
-    elif init["how"] == "names":
-        df = DataFrame(rows=[tuple(val(v) for v in r) for r in init["rows"]], schema=list(init["names"]))
-    elif init["how"] == "dicts":
-        df = DataFrame(dictionaries=[{k: val(v) for k, v in d} for d in init["dicts"]])
-    else:
-        raise KeyError(init["how"])
+    df = _mk_frame(init, _mk_arg(init))
     obs = {"init_rows": _rows_of(df), "init_nb": df._nbytes is not None, "init_cur": df._cursor is not None,
            "names": [str(c) for c in df.column_names], "steps": []}
     kept = []
@@ -637,6 +650,62 @@ def observe(case):
         out = _outcome(lambda: df.append(entry), kept)
         obs["steps"].append({"out": out, "rows": _rows_of(df), "count": df.rowcount, "keys_after": _keys_after(rec, entry),
                              "nb": df._nbytes is not None, "cur": df._cursor is not None})
+    for st, late in zip(obs["steps"], _late(kept)):
+        st["late"] = late
+    return obs
+
+
+def _mk_arg(init):
+    """The ONE creation argument of a frame: the rows collection (round 7: an empty collection may be given as a list, a tuple,
+    a deque, or not at all - "rows_as") or the list of dictionaries."""
+    if init["how"] == "dicts":
+        return [{k: val(v) for k, v in d} for d in init["dicts"]]
+    rows = [tuple(val(v) for v in r) for r in init["rows"]]
+    form = init.get("rows_as", "list")
+    if form == "list":
+        return rows
+    if rows:
+        raise ValueError("rows_as is for empty row collections only")
+    return {"tuple": (), "deque": collections.deque(), "none": None}[form]
+
+
+def _mk_frame(init, arg, schema=None):
+    from orso.dataframe import DataFrame
+
+    if init["how"] == "dicts":
+        return DataFrame(dictionaries=arg)
+    if schema is None:
+        schema = _mk_schema(init["schema"]) if init["how"] == "schema" else list(init["names"])
+    if init.get("rows_as") == "none":
+        return DataFrame(schema=schema)
+    return DataFrame(rows=arg, schema=schema)
+
+
+def _observe_twin(case):
+    """Two frames created from the SAME creation argument (one collection object), appended to in the given interleaving."""
+    init = case["init"]
+    arg = _mk_arg(init)
+    schema = None
+    if init["how"] == "schema" and case.get("share_schema"):
+        schema = _mk_schema(init["schema"])  # one schema object for both frames as well
+    frames = [_mk_frame(init, arg, schema), _mk_frame(init, arg, schema)]
+
+    def state(df):
+        return {"rows": _rows_of(df), "count": df.rowcount, "nb": df._nbytes is not None, "cur": df._cursor is not None}
+
+    def caller():
+        if init["how"] == "dicts" or arg is None:
+            return []
+        return [[_cell(x) for x in tuple(r)] for r in arg]
+
+    obs = {"init": [state(f) for f in frames], "names": [[str(c) for c in f.column_names] for f in frames], "steps": []}
+    kept = []
+    for which, rec in case["entries"]:
+        entry = _mk_entry(rec)
+        df = frames[which]
+        out = _outcome(lambda: df.append(entry), kept)
+        obs["steps"].append({"out": out, "frames": [state(f) for f in frames], "caller": caller(), "keys_after": _keys_after(rec, entry),
+                             "arg_len": None if arg is None else len(arg)})
     for st, late in zip(obs["steps"], _late(kept)):
         st["late"] = late
     return obs
@@ -737,6 +806,8 @@ def _check_outcome(exp, out, where, ok_ret):
             return f"{where}: keys {sorted(exp[1])} name no schema column: an excess-columns error naming exactly them is required (checked first), got {out}"
         if out["columns"] != sorted(exp[1]) or out["n"] != len(exp[1]):
             return f"{where}: the excess-columns error must name exactly {sorted(exp[1])}, names {out['columns']}"
+        if out.get("msg_unnamed"):
+            return f"{where}: the error's message must name every excess key, it does not mention {out['msg_unnamed']}"
         return None
     _, m, n, w = exp
     if out["v"] != "errors":
@@ -749,6 +820,8 @@ def _check_outcome(exp, out, where, ok_ret):
         return f"{where}: nulls in non-nullable columns must be exactly {n}, error names {out['notnull']}"
     if sorted(map(repr, out["wrong"])) != sorted(map(repr, w)):
         return f"{where}: wrongly typed values must be exactly {w} (column, value, type), error names {out['wrong']}"
+    if out.get("msg_unnamed"):
+        return f"{where}: the error's message must name every offending column, it does not mention {out['msg_unnamed']}"
     return None
 
 
@@ -786,6 +859,8 @@ def _oracle_late(case, obs):
         pairs = [("validate", obs, obs["late"])]
     elif case["kind"] == "hist":
         pairs = [(f"append {i} {rec}", st["out"], st["late"]) for i, (rec, st) in enumerate(zip(case["entries"], obs["steps"]))]
+    elif case["kind"] == "twin":
+        pairs = [(f"append {i} {x}", st["out"], st["late"]) for i, (x, st) in enumerate(zip(case["entries"], obs["steps"]))]
     else:
         pairs = [(f"op {i} {op}", ob["out"], ob["late"]) for i, (op, ob) in enumerate(zip(case["ops"], obs)) if "late" in ob]
     for where, now, late in pairs:
@@ -818,6 +893,8 @@ def _oracle(case, obs):
         if exp is None:
             return None
         return _check_outcome(exp, obs, "validate", "True")
+    if case["kind"] == "twin":
+        return _oracle_twin(case, obs)
     init = case["init"]
     if init["how"] == "schema":
         cols, names = init["schema"], [c[0] for c in init["schema"]]
@@ -837,6 +914,43 @@ def _oracle(case, obs):
         why, rows = _judge_append(f"append {i} {rec}", rec, st, rows, cols, names)
         if why:
             return why
+    return None
+
+
+def _oracle_twin(case, obs):
+    """Two frames created from one (empty) rows collection / one list of dictionaries: each holds exactly the records IT accepted."""
+    init = case["init"]
+    if init["how"] == "schema":
+        cols, names = init["schema"], [c[0] for c in init["schema"]]
+        rows0 = [list(r) for r in init["rows"]]
+    elif init["how"] == "names":
+        cols, names = None, list(init["names"])
+        rows0 = [list(r) for r in init["rows"]]
+    else:
+        cols = None
+        names = [k for k, _ in init["dicts"][0]] if init["dicts"] else []
+        rows0 = [[dict((k, v) for k, v in d).get(n, 0) for n in names] for d in init["dicts"]]
+    if init["how"] != "dicts" and rows0:
+        return None  # a non-empty rows list is adopted as the store itself (shared): not generated, see notes (round 7)
+    rows = [list(rows0), list(rows0)]
+    for w in (0, 1):
+        if obs["init"][w]["rows"] != rows0:
+            return f"frame {w} created from {init['how']} must hold the rows {rows0}, holds {obs['init'][w]['rows']}"
+        if obs["names"][w] != names:
+            return f"frame {w}: column names must be {names}, are {obs['names'][w]}"
+    n_arg = len(init["dicts"]) if init["how"] == "dicts" else 0
+    for i, ((which, rec), st) in enumerate(zip(case["entries"], obs["steps"])):
+        where = f"append {i} to frame {which} {rec}"
+        mine = dict(st["frames"][which], out=st["out"], keys_after=st["keys_after"])
+        why, rows[which] = _judge_append(where, rec, mine, rows[which], cols, names)
+        if why:
+            return why
+        other = st["frames"][1 - which]
+        if other["rows"] != rows[1 - which] or other["count"] != len(rows[1 - which]):
+            return (f"{where}: frame {1 - which} (made from the same {init.get('rows_as', 'list') if init['how'] != 'dicts' else 'dictionaries'} argument) accepted "
+                    f"{rows[1 - which]} and must hold exactly that; after this append to frame {which} it holds {other['rows']} (rowcount {other['count']})")
+        if st["caller"] != [] or (st["arg_len"] is not None and st["arg_len"] != n_arg):
+            return f"{where}: the caller's collection passed at creation must be left as it was, now has {st['arg_len']} element(s) {st['caller']}"
     return None
 
 
@@ -1064,6 +1178,8 @@ def to_coq(case, obs):
         return ("validate", "((((%s, %s, %s) : c05_validate_case), %s) : c05_validate_case2)" % (
             _coq_schema(case["schema"]), _coq_entry(rec), _coq_out(obs, ok(obs)), _coq_out(obs["late"], ok(obs["late"]))))
     init = case["init"]
+    if case["kind"] == "twin":
+        return _to_coq_twin(case, obs)
     if init["how"] == "schema":
         i = "(IRows %s %s)" % (_coq_schema(init["schema"]), _coq_rows(init["rows"]))
     elif init["how"] == "names":
@@ -1076,6 +1192,24 @@ def to_coq(case, obs):
     late = L.lst(_coq_out(s["late"], "OOk") for s in obs["steps"])
     return ("hist", "((((%s, %s, %s, %s) : c05_hist_case), %s) : c05_hist_case2)" % (
         i, L.lst(_coq_entry(e) for e in case["entries"]), first, steps, late))
+
+
+def _coq_init(init):
+    if init["how"] == "schema":
+        return "(IRows %s %s)" % (_coq_schema(init["schema"]), _coq_rows(init["rows"]))
+    if init["how"] == "names":
+        return "(INames %s %s)" % (L.lst(L.N(KEY_ID[n]) for n in init["names"]), _coq_rows(init["rows"]))
+    return "(IDicts %s)" % L.lst(_coq_items(d) for d in init["dicts"])
+
+
+def _to_coq_twin(case, obs):
+    st3 = lambda s: "(%s, %s, %s)" % (_coq_rows(s["rows"]), L.boolean(s["nb"]), L.boolean(s["cur"]))
+    xs = L.lst("(%s, %s)" % (L.boolean(bool(w)), _coq_entry(r)) for w, r in case["entries"])
+    steps = L.lst("(%s, %s, %s, %s)" % (_coq_out(s["out"], "OOk"), st3(s["frames"][0]), st3(s["frames"][1]), _coq_rows(s["caller"]))
+                  for s in obs["steps"])
+    late = L.lst(_coq_out(s["late"], "OOk") for s in obs["steps"])
+    return ("twin", "((%s, %s, (%s, %s), %s, %s) : c05_twin_case)" % (
+        _coq_init(case["init"]), xs, st3(obs["init"][0]), st3(obs["init"][1]), steps, late))
 
 
 # --------------------------------------------------------------------------------------
@@ -1162,6 +1296,15 @@ def corpus():
     yield {"kind": "session", "schemas": [[["c0", "INTEGER", False]]], "ops": [
         ["validate", 0, R(("c0", 0))], ["mutate", 0, ["setattrs", 0, {"default": 2}]], ["validate", 0, R(("c0", 0))],
         ["frame", 0], ["append", R(("c0", 0))], ["append", R(("c0", 2))]]}
+    # round 7: two frames from ONE still-empty rows collection each hold exactly what THEY accepted (the reviewer's scenario),
+    # a frame made from rows=() accepts appends; an error names ALL offending columns of a wide schema
+    tsch = [["c0", "INTEGER", False], ["c1", "VARCHAR", True]]
+    tent = [[0, R(("c0", 2), ("c1", 5))], [1, R(("c0", 5), ("c1", 5))], [1, R(("c1", 0), ("c0", 3))]]
+    for form in ROWS_FORMS:
+        yield {"kind": "twin", "init": {"how": "schema", "schema": tsch, "rows": [], "rows_as": form}, "entries": tent}
+    yield {"kind": "hist", "init": {"how": "schema", "schema": tsch, "rows": [], "rows_as": "tuple"}, "entries": [R(("c0", 2), ("c1", 5))]}
+    yield _wide_case(40, 0)
+    yield _wide_case(99, 6)
     # several rules firing at once; excess checked first
     sch = [["c0", "INTEGER", False], ["c1", "VARCHAR", True], ["c2", "DATE", False], ["c3", "", False]]
     yield {"kind": "validate", "schema": sch, "rec": {"k": "dict", "items": [["c0", 0], ["c1", 2], ["c3", 0]]}}
@@ -1224,6 +1367,8 @@ def exhaustive(tier):
 
         yield from _session_matrix()
         yield from _attribute_matrix()
+        yield from _twin_matrix()
+        yield from _wide_matrix()
 
     label = ("one-column schemas: every OrsoTypes member + both untyped forms (%d) x nullable/not x every pool value (%d, at least one per class of the "
              "regenerated class table, incl. subclass pairs)" % (len(types), n))
@@ -1235,6 +1380,11 @@ def exhaustive(tier):
               "(a default of the column's type / of another type / falsy, aliases naming an excess key / another column / the column itself, each "
               "descriptive attribute, all together) x {column missing, explicit None, right value, wrong value, key given under the alias only, "
               "column plus alias key} on a two-column schema; zero-column schema x {empty record, one key}")
+    label += ("; round 7: twin matrix - {RelationSchema (own or one shared schema object), name list, zero-column schema} x an empty rows collection "
+              "given as list / tuple / deque / not at all, or 0..2 dictionaries, TWO frames made from that one argument x a fixed interleaving of accepted, "
+              "rejected and unserialisable appends (both addressings), plus the single-frame form; wide matrix - schemas of %s columns x {all columns "
+              "missing, all null, all wrongly typed, as many excess keys, thirds missing/null/wrong, alternate nullable, mixed types and states, conforming}, "
+              "the mixed ones also appended as a history up to width 129" % (", ".join(map(str, WIDE_WIDTHS)),))
     if tier == "thorough":
         label += "; two-column schemas over {INTEGER, DATE, untyped}^2 x nullable^2 x {missing,null,right,subclass,wrong}^2 x {no, one} excess key"
     return it(), label
@@ -1291,6 +1441,93 @@ def _attribute_matrix():
         yield {"kind": "validate", "schema": [], "rec": {"k": "dict", "items": items}}
     yield {"kind": "hist", "init": {"how": "schema", "schema": [], "rows": []},
            "entries": [{"k": "dict", "items": []}, {"k": "dict", "items": [["c0", 2]]}, {"k": "ordereddict", "items": []}]}
+
+
+ROWS_FORMS = ("list", "tuple", "deque", "none")
+# widths around the round numbers a cap / batch size / bitmap width would be written as (literal-1, literal, literal+1)
+WIDE_WIDTHS = (15, 16, 17, 31, 32, 33, 64, 65, 100, 101, 128, 129, 256, 257, 512, 513, 1025)
+
+
+def _wide_schema(width, mode):
+    tys = ["INTEGER"] if mode < 6 else ["INTEGER", "VARCHAR", "DATE", ""]
+    return [[WIDE_NAMES[i], tys[i % len(tys)], mode in (5,) and i % 2 == 0] for i in range(width)]
+
+
+def _wide_case(width, mode):
+    """A schema of `width` columns and a record in which MANY columns offend at once.
+    mode 0: all missing; 1: all null (non-nullable); 2: all wrongly typed; 3: `width` excess keys beside a conforming record;
+    4: thirds missing / null / wrong (the rules fire together); 5: alternate nullable columns, all null; 6: mixed types, per column
+    missing / null / wrong / right in turn; 7: conforming (accepted).  Modes 4.. come as an append history as well."""
+    cols = _wide_schema(width, mode)
+    items = []
+    for i, (n, ty, nullable) in enumerate(cols):
+        right, wrong = _state_value(None, ty, 2), _state_value(None, ty, 4)
+        if mode == 0:
+            continue
+        if mode in (1, 5):
+            items.append([n, 0])
+        elif mode == 2:
+            items.append([n, wrong])
+        elif mode in (3, 7):
+            items.append([n, right])
+        elif mode == 4:
+            k = (3 * i) // width
+            if k:
+                items.append([n, 0 if k == 1 else wrong])
+        else:
+            k = i % 4
+            if k:
+                items.append([n, [0, wrong, right][k - 1]])
+    if mode == 3:
+        items = [[WIDE_NAMES[width + i], 2] for i in range(width)] + items
+    return {"kind": "validate", "schema": cols, "rec": {"k": "dict", "items": items}}
+
+
+def _wide_matrix():
+    for width in WIDE_WIDTHS:
+        for mode in range(8):
+            if width > 260 and mode not in (0, 1, 2, 3):
+                continue
+            c = _wide_case(width, mode)
+            yield c
+            if mode >= 4 and width <= 130:
+                good = _wide_case(width, 7)["rec"]
+                yield {"kind": "hist", "init": {"how": "schema", "schema": c["schema"], "rows": [], "rows_as": ROWS_FORMS[width % 4]},
+                       "entries": [c["rec"], good, dict(c["rec"], k="ordereddict"), good]}
+
+
+def _twin_matrix():
+    """Every creation form x every way to pass an empty rows collection x two frames from that ONE argument x a fixed interleaving
+    (accepted by 0, rejected by 1, accepted by 1, unserialisable to 0, accepted by 0, excess key to 1, accepted by 1)."""
+    R = lambda *items: {"k": "dict", "items": [list(x) for x in items]}
+    sch = [["c0", "INTEGER", False], ["c1", "VARCHAR", True]]
+    entries = [[0, R(("c0", 2), ("c1", 5))], [1, R(("c0", 5), ("c1", 5))], [1, R(("c1", 0), ("c0", 3))], [0, R(("c0", 28), ("c1", 6))],
+               [0, R(("c1", 6), ("c0", 1))], [1, R(("c0", 2), ("x0", 2))], [1, {"k": "mapping", "items": [["c0", 45], ["c1", 5]]}]]
+    for form in ROWS_FORMS:
+        for share in (False, True):
+            yield {"kind": "twin", "share_schema": share, "init": {"how": "schema", "schema": sch, "rows": [], "rows_as": form}, "entries": entries}
+            yield {"kind": "twin", "share_schema": share, "init": {"how": "schema", "schema": sch, "rows": [], "rows_as": form},
+                   "entries": [[1 - w, r] for w, r in entries]}
+        yield {"kind": "twin", "init": {"how": "names", "names": ["c0", "c1"], "rows": [], "rows_as": form}, "entries": entries}
+        yield {"kind": "twin", "init": {"how": "schema", "schema": [], "rows": [], "rows_as": form},
+               "entries": [[0, R()], [1, R(("c0", 2))], [1, R()], [0, R()]]}
+        # the single-frame form: created from an empty collection of every kind, then appended to
+        yield {"kind": "hist", "init": {"how": "schema", "schema": sch, "rows": [], "rows_as": form}, "entries": [r for _, r in entries]}
+        yield {"kind": "hist", "init": {"how": "names", "names": ["c0", "c1"], "rows": [], "rows_as": form}, "entries": [r for _, r in entries]}
+    for dicts in ([], [[["c0", 2], ["c1", 5]]], [[["c0", 2], ["c1", 5]], [["c1", 6]]]):
+        yield {"kind": "twin", "init": {"how": "dicts", "dicts": dicts}, "entries": entries}
+
+
+def _rand_twin(rng):
+    h = _rand_hist(rng)
+    init = h["init"]
+    if init["how"] != "dicts":
+        init["rows"] = []
+        init["rows_as"] = rng.choice(ROWS_FORMS)
+    case = {"kind": "twin", "init": init, "entries": [[rng.randrange(2), e] for e in h["entries"]]}
+    if init["how"] == "schema":
+        case["share_schema"] = rng.random() < 0.5
+    return case
 
 
 def _session_matrix():
@@ -1526,12 +1763,14 @@ def generate(rng, tier):
         yield _rand_validate(rng) if i % 2 == 0 else _rand_hist(rng)
     for i in range(350 if tier == "quick" else 7000):
         yield _rand_session(rng)
+    for i in range(150 if tier == "quick" else 3000):
+        yield _rand_twin(rng)
 
 
 def search(rng):
     while True:
         r = rng.random()
-        yield _rand_hist(rng) if r < 0.4 else _rand_session(rng) if r < 0.75 else _rand_validate(rng)
+        yield _rand_hist(rng) if r < 0.35 else _rand_session(rng) if r < 0.65 else _rand_twin(rng) if r < 0.8 else _rand_validate(rng)
 
 
 def _shrink_session(case):
@@ -1571,6 +1810,17 @@ def shrink(case):
         for i in range(len(rec["items"])):
             yield dict(case, rec=dict(rec, items=rec["items"][:i] + rec["items"][i + 1:]))
         return
+    if case["kind"] == "twin":
+        es = case["entries"]
+        for i in range(len(es)):
+            if len(es) > 1:
+                yield dict(case, entries=es[:i] + es[i + 1:])
+        if case.get("share_schema"):
+            yield dict(case, share_schema=False)
+        for i, (w, e) in enumerate(es):
+            for j in range(len(e["items"])):
+                yield dict(case, entries=es[:i] + [[w, dict(e, items=e["items"][:j] + e["items"][j + 1:])]] + es[i + 1:])
+        return
     es = case["entries"]
     for i in range(len(es)):
         if len(es) > 1:
@@ -1603,13 +1853,13 @@ def nontrivial_key(case, obs):
         return repr((case["schema"], case["rec"]))
     if not case["entries"]:
         return None
-    return repr((case["init"], case["entries"]))
+    return repr((case["kind"], case.get("share_schema"), case["init"], case["entries"]))
 
 
 def _case_columns(case):
     if case["kind"] == "validate":
         return list(case["schema"])
-    if case["kind"] == "hist":
+    if case["kind"] in ("hist", "twin"):
         return list(case["init"].get("schema", []))
     out = [c for sc in case["schemas"] if isinstance(sc, list) for c in sc]
     for op in case["ops"]:
@@ -1645,7 +1895,11 @@ def classify(case, obs):
                 yield "session-append:" + ob["out"]["v"]
         return
     if case["kind"] == "validate":
-        yield "cols=%d" % len(case["schema"])
+        yield "cols=%d" % len(case["schema"]) if len(case["schema"]) <= 8 else "cols>32" if len(case["schema"]) > 32 else "cols=9..32"
+        if obs["v"] == "errors" and max(len(obs["missing"]), len(obs["notnull"]), len(obs["wrong"])) > 32:
+            yield "more-than-32-columns-named-by-one-rule"
+        if obs["v"] == "excess" and obs["n"] > 32:
+            yield "more-than-32-excess-keys"
         yield "verdict:" + obs["v"]
         yield "record:" + case["rec"]["k"]
         if obs["v"] == "errors":
@@ -1653,7 +1907,15 @@ def classify(case, obs):
             yield "error-categories=%d" % k
         return
     yield "init:" + case["init"]["how"] + ("" if case["init"].get("rows") or case["init"].get("dicts") else "-empty")
+    if case["init"].get("rows_as"):
+        yield "empty-rows-given-as:" + case["init"]["rows_as"]
+    if len(case["init"].get("schema", [])) > 32:
+        yield "wide-schema-append-history"
     yield "appends=%d" % len(case["entries"])
+    if case["kind"] == "twin":
+        for (w, rec), st in zip(case["entries"], obs["steps"]):
+            yield "twin-append:" + st["out"]["v"]
+        return
     for rec, st in zip(case["entries"], obs["steps"]):
         yield "append:" + st["out"]["v"] + ("" if rec["k"] == "dict" else "-" + rec["k"])
         if st["out"]["v"] == "raise":
